@@ -3,6 +3,7 @@
 
 mod c01;
 mod c02;
+mod c03;
 mod c04;
 mod c05;
 mod c12;
@@ -16,6 +17,7 @@ fn run_property(id: &str, tier: &str) -> Option<Run> {
     Some(match id {
         "C01" => c01::run(tier),
         "C02" => c02::run(tier),
+        "C03" => c03::run(tier),
         "C04" => c04::run(tier),
         "C05" => c05::run(tier),
         "C12" => c12::run(tier),
@@ -42,6 +44,7 @@ fn main() {
         let res = match prop.as_str() {
             "C01" => c01::replay(&v["replay"]),
             "C02" => c02::replay(&v["replay"]),
+            "C03" => c03::replay(&v["replay"]),
             "C04" => c04::replay(&v["replay"]),
             "C05" => c05::replay(&v["replay"]),
             "C12" => c12::replay(&v["replay"]),
